@@ -108,7 +108,8 @@ class Model:
         if r.watch_absent is not None and p.watch.get(r.watch_absent) is not None:
             return 'created:' + r.watch_absent
         c = self.cur_ctx
-        if c is not None and c['obs'] is not None and n in c['obs'] and n not in c['ran'] and self.removed_stamp_below(n):
+        if c is not None and c['obs'] is not None and n in c['obs'] and n not in c['ran'] and self.removed_stamp_below(n) \
+                and not self.settles_to_run(n, c):
             # a checksummed dependency whose file the user removed: the dependency did change (it
             # vanished), so running n directly is legitimate; settling it through the checksum is too.
             # Which of the two redo does depends on evaluation order, so the observation decides.
@@ -123,6 +124,8 @@ class Model:
         if not self.is_target(d):
             return 'clean', None
         if d in ctx['done']:
+            if ctx['done'][d] and self.tainted(d) and self.observed_more(ctx, {d}):
+                return 'dirty', 'dep-tolerates-failure:' + d
             return ('clean', None) if ctx['done'][d] else ('dirty', 'dep-failed:' + d)
         r = self.R[d]
         s, why = self.status(d, ctx, memo)
@@ -169,8 +172,20 @@ class Model:
                 self.topmost(d, ctx, memo, acc)
         return acc
 
+    def tainted(self, n, seen=None):
+        """n, or a target below it, succeeded although a dependency it tolerates (|| true) has failed."""
+        seen = set() if seen is None else seen
+        if n in seen or n not in self.R or not self.is_target(n):
+            return False
+        seen.add(n)
+        t = self.p.targets[n]
+        o = t.get('opt')
+        if o and self.is_target(o) and self.R[o].failed:
+            return True
+        return any(self.tainted(d, seen) for d in self.p.curdeps(n))
+
     def removed_stamp_below(self, n):
-        for d in self.R[n].seen:
+        for d in list(self.R[n].seen) + list(self.R[n].extra):
             if d in self.R and self.is_target(d):
                 r = self.R[d]
                 if r.stamped and (r.removed_mark or r.removed_run == self.run):
@@ -187,11 +202,14 @@ class Model:
         if n in ctx['done'] and forced and ctx['done'][n]:
             ctx['rechecked'].add(n)      # force-rebuilt after it was already checked in this run
         if n in ctx['done'] and not forced:
-            o = self.p.targets[n].get('opt')
-            if not (ctx['done'][n] and o and self.is_target(o) and self.R[o].failed):
+            if not (ctx['done'][n] and self.tainted(n)):
                 return ctx['done'][n]
-            # n succeeded although a dependency it tolerates failed: by C05 it is not up to date, so a
-            # further request in the same run executes it again
+            # n (or something below it) succeeded although a dependency it tolerates failed: by C05 it is not up to date, so a
+            # further request in the same run may execute it again (redo does unless n was marked as
+            # checked by redo-stamp in this run): a may-run, decided by the observation
+            ctx['maybe'].add(n)
+            if not self.observed_more(ctx, {n}):
+                return ctx['done'][n]
             del ctx['done'][n]
         s, why = self.status(n, ctx, {}, forced)
         if s != 'dirty' and ctx['obs'] is not None and n in ctx['obs'] and n not in ctx['ran']:
